@@ -183,20 +183,7 @@ def firstVal : Operand → Option Val
   | .obj (.ret v :: _) => some v
   | .obj _ => none
 
-def seqDevs (m : String) (r : Run) : List String :=
-  let a (k : Nat) := r.operand (k + 1)
-  let d : List (String × Bool) := [
-    ("order_charAt_pos_first", (m == "charAt" || m == "charCodeAt") && r.recv.isObj && (a 0).isObj),
-    ("order_split_limit0", m == "split" && recvOK r && (a 0).isObj && present r 1 &&
-        (match firstVal (a 1) with | some v => decide (toUint32 env.c5 v = 0) | none => false)),
-    ("order_lastIndexOf_empty", m == "lastIndexOf" && recvOK r && (a 1).isObj &&
-        (match firstVal r.recv with | some t => (toStr env t).isEmpty | none => false)),
-    ("order_replace_lazy", m == "replace" && recvOK r && (a 1).isObj &&
-        (match firstVal r.recv, firstVal (a 0) with
-         | some t, some sv => (indexBytes (toStr env t) (toStr env sv)).isNone
-         | _, _ => false))
-  ]
-  (d.filter (·.2)).map (·.1)
+def seqDevs (_m : String) (_r : Run) : List String := []    -- no order deviation left
 
 def handleSeq (m : String) (rt : String) (as : List String) : String :=
   match operand? rt, as.mapM operand? with
